@@ -267,6 +267,17 @@ def _judge_state(zdir, day, original: dict, prev: dict | None, step_no: int, had
 
 
 def _run_case(ctx, case) -> F.Outcome:
+    if case[0] == "spelled":
+        # the same case with the notes directory spelled differently on the command line
+        H.set_dir_spelling(case[1])
+        try:
+            res = _run_case(ctx, case[2:])
+        finally:
+            H.set_dir_spelling()
+        if not res.ok:
+            res.detail["notes_directory_spelled"] = case[1]
+        res.nontrivial = H.digest(case)
+        return res
     build, hist, advance, preids = case
     day0 = H.rotate(_DAYS, ctx.seed)[0]
     files = build_files(build)
@@ -366,10 +377,21 @@ def _cases(ctx):
         for layout in ("same_block", "two_pages", "subdir"):
             for i, j in ((di, wi), (wi, di)):
                 cases.append([["pair", layout, i, j], "cr", False, 0])
+    # the notes directory given through a symlink / with a '..' in it (same directory, same result)
+    for v in range(0, nv, 5 if ctx.quick else 2):
+        cases.append(["spelled", "symlink", ["variant", v], "cr", False, 0])
+    for v in range(2, nv, 11 if ctx.quick else 3):
+        cases.append(["spelled", "dotdot", ["variant", v], "cr", True, v + 1])
+    for layout in ("subdir", "two_pages", "same_name_pages", "deep_sections"):
+        for i, j in ((0, 3), (8, 1), (5, 6)):
+            cases.append(["spelled", "symlink", ["pair", layout, i, j], "cr", False, 0])
+            cases.append(["spelled", "dotdot", ["pair", layout, j, i], "cc", True, 0])
     return cases
 
 
 def _sample(case):
+    if case[0] == "spelled":
+        return dict(_sample(case[2:]), notes_directory_spelled=case[1])
     return {"initial_files": build_files(case[0]), "history": case[1], "advance_day_between_steps": case[2],
             "preexisting_next_ids": case[3]}
 
